@@ -5,7 +5,11 @@ implementation variant (plain / _with_dict / _with_sparsity) and the CompositeSy
 basis of the input space and on random complex / asymmetric (non-physical) inputs and compared with the extracted Coq
 model fed with the implementation's own basis (exact dyadic values of c_sys.basis()).  The property's predicates
 (round trips, same operator after a basis change, Frobenius isometry, Kraus certificate, commutation matrix, process
-matrix formula, linearity) are evaluated on the implementation's outputs as well."""
+matrix formula, linearity) are evaluated on the implementation's outputs as well.
+
+The model is the REPAIRED code for the three C02 repairs in /verif/fixes (gate-to-var-from-choi-inverse-map,
+povm-matrix-with-sparsity-nameerror, povm-matrices-return-ndarray) and for C04's truncate-hs-relative-imag-threshold;
+on a tree without the first three the corresponding (site, signature) pairs are reported again."""
 import itertools
 import numpy as np
 from fractions import Fraction
@@ -95,6 +99,15 @@ def active_configs(ctx, include_smoke=True):
 
 def is_smoke(ctx, name):
     return ctx.quick and CONFIGS[name][1] == "smoke"
+
+
+def nn(ctx, name, q, t):
+    """number of seeded cases for configuration `name`: q in the quick tier; in the thorough tier t for d <= 3, half of it for d = 4 and
+    the quick-tier count for d = 6 (one d = 6 case costs seconds on both sides; the budget is 15 minutes for the whole tier)"""
+    if ctx.quick:
+        return q
+    dim = int(np.prod([dm for _, dm in CONFIGS[name][0]]))
+    return q if dim >= 6 else (max(q, t // 2) if dim >= 4 else t)
 
 
 # ------------------------------------------------------------------------------------------------ generators
@@ -187,9 +200,21 @@ def m_capply(ctx, c, H, X, B=None):
     return m_cmat(M(ctx).call("c02.capply_hs", [c.d], bf + cflat(H) + cflat(X)), c.d, c.d)
 
 
-def band(x, eps):
+def band(x, eps, hi=8.0):
     """is |x| so close to eps that float rounding could flip the comparison |x| < eps ?"""
-    return eps / 8 < abs(x) < eps * 8
+    return eps / 8 < abs(x) < eps * hi
+
+
+def inband(zs, eps):
+    """truncate_hs decisions on the array zs are compared only when no entry is near a threshold.  Real parts are compared with eps.
+    Imaginary parts are compared with eps * max(1, max|re|) by the repaired truncate_hs (fix truncate-hs-relative-imag-threshold, the
+    version the model mirrors) and with eps by the code before that fix: the band covers both, so this check gives the same answer on
+    either tree (that defect belongs to C04/C11) and never compares a decision that float rounding could flip."""
+    zs = np.asarray(zs, dtype=complex).ravel()
+    if zs.size == 0:
+        return False
+    size = max(1.0, float(np.abs(zs.real).max()))
+    return any(band(z.imag, eps, 8.0 * size) or band(z.real, eps) for z in zs)
 
 
 class Cmp:
@@ -271,7 +296,8 @@ TABLES = [("basis_T_sparse", 0), ("basisconjugate_sparse", 1), ("basis_basisconj
 
 
 def chk_tables(ctx, case):
-    c = Cfg(case["cfg"])          # fresh CompositeSystem: tables are built here
+    c = Cfg(case["cfg"])          # fresh CompositeSystem: tables are built here ...
+    _CACHE[case["cfg"]] = c       # ... and the later sub-checks use this very system (its lazily built tables are the ones verified here)
     K = Cmp(ctx, "tables", case)
     d, D = c.d, c.D
     rows_sel = case.get("rows")   # None = all rows
@@ -326,11 +352,11 @@ def chk_tables(ctx, case):
 def sub_tables(ctx):
     cases = []
     for n in active_configs(ctx):
-        d = sum(1 for _ in [0])
+        dim = int(np.prod([dm for _, dm in CONFIGS[n][0]]))
         if is_smoke(ctx, n):
-            cases.append({"cfg": n, "rows": [ctx.rng.randrange(10 ** 6) for _ in range(12)]})
-        elif CONFIGS[n][0] and np.prod([dm for _, dm in CONFIGS[n][0]]) >= 6:
-            cases.append({"cfg": n, "rows": [ctx.rng.randrange(10 ** 6) for _ in range(150)]})
+            cases.append({"cfg": n, "rows": [ctx.rng.randrange(10 ** 6) for _ in range(4)]})
+        elif dim >= 6:
+            cases.append({"cfg": n, "rows": [ctx.rng.randrange(10 ** 6) for _ in range(40)]})
         else:
             cases.append({"cfg": n})
     ctx.sample("tables", cases[0])
@@ -373,12 +399,12 @@ def chk_state(ctx, case):
         eps = case.get("eps")
         e = ATOL if eps is None else eps
         exact = m_cvec_of_op(ctx, c, X)
-        inband = any(band(z.imag, e) or band(z.real, e) for z in exact)
+        inband_ = inband(exact, e)
         ms, mv = m_vec_of_op_impl(ctx, c, X, e)
         r, iv = call(S.to_vec_from_density_matrix_with_sparsity, cs, X.copy(), eps)
-        ctx.count("state", key=(c.name, "op", case.get("gen"), tuple(np.round(X.ravel(), 9))), nontrivial=not inband,
-                  label="density->vec/%s/%s" % (case.get("gen", "?"), "in-band" if inband else ms))
-        if not inband:
+        ctx.count("state", key=(c.name, "op", case.get("gen"), tuple(np.round(X.ravel(), 9))), nontrivial=not inband_,
+                  label="density->vec/%s/%s" % (case.get("gen", "?"), "in-band" if inband_ else ms))
+        if not inband_:
             if ms == "err":
                 if not (r == "err" and iv == "ValueError"):
                     K.bad("state.to_vec_from_density_matrix_with_sparsity", "error-kind", "model: ValueError (imaginary part %.3g >= eps), implementation: %s" % (np.abs(exact.imag).max(), (r, iv if r == "err" else "value")))
@@ -390,7 +416,8 @@ def chk_state(ctx, case):
                     K.bad("state.to_vec_from_density_matrix_with_sparsity", "dtype", "result dtype %s" % np.asarray(iv).dtype)
                 # round trip rho -> vec -> rho (complete Hermitian basis, Hermitian argument)
                 if c.complete and c.hermitian and np.abs(X - X.conj().T).max() == 0:
-                    K.eq("state.to_density_matrix_from_vec", S.to_density_matrix_from_vec(cs, np.asarray(iv, dtype=float)), X, "round trip density->vec->density", tol=1e-11, sig="round-trip")
+                    # the conversion zeroes coefficients of modulus < eps (theorem C02_truncating_conversions_ok): identity up to D * eps
+                    K.eq("state.to_density_matrix_from_vec", S.to_density_matrix_from_vec(cs, np.asarray(iv, dtype=float)), X, "round trip density->vec->density", tol=max(1e-11, D * e), sig="round-trip")
                 for para in (True, False):
                     s2, v2 = M(ctx).try_call("c02.var_of_density_impl", [d, int(para)], [ATOL] + c.bf + cflat(X))
                     if eps is None and s2 == "ok":
@@ -458,7 +485,7 @@ def state_cases(ctx, name, n_rand):
         eps = rng.choice([1e-13, 1e-6, 1e-3])
         pert = np.zeros((d, d), dtype=complex)
         i, j = rng.randrange(d), rng.randrange(d)
-        pert[i, j] = rng.choice([0.01, 30.0]) * eps * (1j if rng.random() < 0.7 else 1)
+        pert[i, j] = rng.choice([0.01, 1000.0]) * eps * (1j if rng.random() < 0.7 else 1)
         cases.append({"cfg": name, "kind": "op", "gen": "near-eps", "X": jc(H + pert), "eps": eps})
     for _ in range(max(2, n_rand // 3)):
         cases.append({"cfg": name, "kind": "convert", "v": rand_real(rng, D).tolist()})
@@ -468,7 +495,7 @@ def state_cases(ctx, name, n_rand):
 def sub_state(ctx):
     cases = []
     for n in active_configs(ctx):
-        cases += state_cases(ctx, n, 3 if is_smoke(ctx, n) else ctx.n(8, 40))
+        cases += state_cases(ctx, n, 3 if is_smoke(ctx, n) else nn(ctx, n, 8, 40))
     ctx.sample("state", cases[len(cases) // 2])
     ctx.run_cases("state", chk_state, cases)
 
@@ -493,11 +520,12 @@ def chk_povm(ctx, case):
         K.eq("Povm.matrix", pv.matrix((x,)), mods[x], "matrix((%d,))" % x)
         K.eq("Povm.vec", pv.vec((x,)), vecs[x], "vec((%d,))" % x, tol=0.0)
         # the sparse variant of matrix(): total in the model, same value as matrix()
-        r, val = call(pv.matrix_with_sparsity, x)
-        if r == "err":
-            K.bad("Povm.matrix_with_sparsity", "raises:" + val, "matrix_with_sparsity(%d) raises %s; matrix(%d) returns the POVM element (model: same value for both variants)" % (x, val, x))
-        else:
-            K.eq("Povm.matrix_with_sparsity", val, mods[x], "matrix_with_sparsity(%d)" % x)
+        for key in (x, (x,)):
+            r, val = call(pv.matrix_with_sparsity, key)
+            if r == "err":
+                K.bad("Povm.matrix_with_sparsity", "raises:" + val, "matrix_with_sparsity(%s) raises %s; matrix(%s) returns the POVM element (model: same value for both variants, theorem C02_variants_agree)" % (key, val, key))
+            else:
+                K.eq("Povm.matrix_with_sparsity", val, mods[x], "matrix_with_sparsity(%s)" % (key,))
     # matrices -> vecs (truncating), round trip.  Povm.matrices()/matrix() build their result with `ndarray += csr_matrix`, which
     # turns it into numpy.matrix (State.to_density_matrix repairs this with np.asarray, Povm does not): the documented inverse
     # conversion then raises on their output.  The value path is still checked on np.asarray(...) of the same output.
@@ -555,7 +583,7 @@ def sub_povm(ctx):
     cases = []
     for n in active_configs(ctx):
         c = cfg(n)
-        k = 2 if is_smoke(ctx, n) else ctx.n(6, 30)
+        k = 2 if is_smoke(ctx, n) else nn(ctx, n, 6, 30)
         if not is_smoke(ctx, n):
             # complete basis: each unit vector as a POVM element (one POVM carrying d^2 'elements' in chunks of 4)
             units = [unit(c.D, a) for a in range(c.D)]
@@ -590,7 +618,7 @@ def chk_gate_choi(ctx, case):
         outs = {"gate.to_choi_from_hs": G.to_choi_from_hs(cs, Hin.copy()),
                 "gate.to_choi_from_hs_with_dict": G.to_choi_from_hs_with_dict(cs, Hin.copy()),
                 "gate.to_choi_from_hs_with_sparsity": G.to_choi_from_hs_with_sparsity(cs, Hin.copy())}
-        if real:
+        if real and not is_smoke(ctx, c.name):      # the methods are thin wrappers of the functions: skipped for the quick-tier d = 6 configuration
             g = G.Gate(cs, Hin.copy(), is_physicality_required=False)
             outs["Gate.to_choi_matrix"] = g.to_choi_matrix()
             outs["Gate.to_choi_matrix_with_dict"] = g.to_choi_matrix_with_dict()
@@ -626,12 +654,12 @@ def chk_gate_choi(ctx, case):
         herm = bool(np.abs(Ch - Ch.conj().T).max() == 0)
         for site, f, ex, dictv in (("gate.to_hs_from_choi_with_sparsity", G.to_hs_from_choi_with_sparsity, exact, False),
                                    ("gate.to_hs_from_choi_with_dict", G.to_hs_from_choi_with_dict, exact_d, True)):
-            inband = any(band(z.imag, e) or band(z.real, e) for z in ex.ravel())
+            inband_ = inband(ex, e)
             ms, mv = m_hs_of_choi_impl(ctx, c, Ch, e, dictv)
             r, iv = call(f, cs, Ch.copy(), eps)
-            ctx.count("gate_choi", key=(c.name, site, case.get("gen"), tuple(np.round(Ch.ravel(), 9))), nontrivial=not inband,
-                      label="choi->hs/%s/%s" % (case.get("gen", "?"), "in-band" if inband else ms))
-            if inband:
+            ctx.count("gate_choi", key=(c.name, site, case.get("gen"), tuple(np.round(Ch.ravel(), 9))), nontrivial=not inband_,
+                      label="choi->hs/%s/%s" % (case.get("gen", "?"), "in-band" if inband_ else ms))
+            if inband_:
                 continue
             if ms == "err":
                 if not (r == "err" and iv == "ValueError"):
@@ -641,7 +669,7 @@ def chk_gate_choi(ctx, case):
             else:
                 K.eq(site, iv, mv, "Choi -> HS")
                 if herm and c.complete and c.hermitian:      # round trip Choi -> HS -> Choi
-                    K.eq(site, G.to_choi_from_hs(cs, np.asarray(iv, dtype=float)), Ch, "round trip Choi->HS->Choi", tol=1e-11, sig="round-trip")
+                    K.eq(site, G.to_choi_from_hs(cs, np.asarray(iv, dtype=float)), Ch, "round trip Choi->HS->Choi", tol=max(1e-11, D * D * e), sig="round-trip")
         if c.hermitian:                  # for a Hermitian basis the dict route equals the plain formula
             K.eq("gate.to_hs_from_choi_with_dict", exact_d, exact, "dict formula vs plain formula (Hermitian basis)", tol=1e-11, sig="variants-differ")
 
@@ -653,26 +681,28 @@ def gate_choi_cases(ctx, name, n_rand):
     cases = []
     smoke = is_smoke(ctx, name)
     pairs = list(itertools.product(range(D), range(D)))
-    # complete basis: all d^4 matrix units, except that the quick tier takes a seeded sample of 40 for d = 4 (the cache-table
-    # sub-check compares every B_a (x) conj B_b, i.e. the image of every unit HS matrix, entrywise on every run) and d = 6 is sampled
-    nsel = 4 if smoke else (60 if D >= 36 else (40 if (D >= 16 and ctx.quick) else len(pairs)))
+    # complete basis: all d^4 matrix units for d <= 3; a seeded sample for d = 4 (16 quick / 96 thorough) and d = 6 (12) - the cache-table
+    # sub-check compares every B_a (x) conj B_b, i.e. the image of every unit HS matrix, entrywise on every run (d <= 4; sampled rows for d = 6)
+    nsel = 0 if smoke else (12 if D >= 36 else ((16 if ctx.quick else 96) if D >= 16 else len(pairs)))
     sel = pairs if nsel >= len(pairs) else rng.sample(pairs, nsel)
     for t, (a, b) in enumerate(sel):                               # complete basis of the HS space
         cases.append({"cfg": name, "kind": "hs", "gen": "unit", "H": jc(unit(D * D, a * D + b, (D, D))), "allvariants": t % 20 == 0})
     for t in range(n_rand):
         cases.append({"cfg": name, "kind": "hs", "gen": "real", "H": jc(rand_real(rng, D, D)), "allvariants": t < 1})
-        cases.append({"cfg": name, "kind": "hs", "gen": "complex", "H": jc(rand_cplx(rng, D, D))})
+        if not smoke:
+            cases.append({"cfg": name, "kind": "hs", "gen": "complex", "H": jc(rand_cplx(rng, D, D))})
     sel = pairs if nsel >= len(pairs) else rng.sample(pairs, nsel)
     for t, (i, j) in enumerate(sel):                               # complete basis of the Choi space
         cases.append({"cfg": name, "kind": "choi", "gen": "unit", "Ch": jc(unit(D * D, i * D + j, (D, D))), "allvariants": t % 20 == 0})
     for t in range(n_rand):
         cases.append({"cfg": name, "kind": "choi", "gen": "hermitian", "Ch": jc(rand_herm(rng, D)), "allvariants": t < 1})
-        cases.append({"cfg": name, "kind": "choi", "gen": "complex", "Ch": jc(rand_cplx(rng, D, D))})
-    for _ in range(max(2, n_rand // 2)):
+        if not smoke:
+            cases.append({"cfg": name, "kind": "choi", "gen": "complex", "Ch": jc(rand_cplx(rng, D, D))})
+    for _ in range(1 if smoke else max(2, n_rand // 2)):
         H = rand_herm(rng, D)
         eps = rng.choice([1e-13, 1e-6, 1e-3])
         i, j = rng.randrange(D), rng.randrange(D)
-        H[i, j] += rng.choice([0.01, 30.0]) * eps * 1j
+        H[i, j] += rng.choice([0.01, 1000.0]) * eps * 1j
         cases.append({"cfg": name, "kind": "choi", "gen": "near-eps", "Ch": jc(H), "eps": eps})
     return cases
 
@@ -680,7 +710,7 @@ def gate_choi_cases(ctx, name, n_rand):
 def sub_gate_choi(ctx):
     cases = []
     for n in active_configs(ctx):
-        cases += gate_choi_cases(ctx, n, 2 if is_smoke(ctx, n) else ctx.n(6, 30))
+        cases += gate_choi_cases(ctx, n, 1 if is_smoke(ctx, n) else nn(ctx, n, 4, 30))
     ctx.sample("gate_choi", cases[len(cases) // 3])
     ctx.run_cases("gate_choi", chk_gate_choi, cases)
 
@@ -733,7 +763,9 @@ def chk_gate_basis(ctx, case):
         K.eq("Gate.convert_to_comp_basis", (got["comp-row"] @ X.reshape(-1)).reshape(d, d), img, "HS_cb vec(X) = vec(G(X))", tol=1e-10, sig="different-operator")
         K.eq("Gate.convert_to_comp_basis", (got["comp-col"] @ X.T.reshape(-1)).reshape(d, d).T, img, "column-major: HS_cb vec_col(X) = vec_col(G(X))", tol=1e-10, sig="different-operator")
     # process matrix
-    mod = m_cmat(M(ctx).call("c02.process_matrix", [d], c.bf + cflat(H)), D, D)
+    mod = m_cmat(M(ctx).call("c02.process_matrix", [d], c.bf + cflat(H)), D, D)      # executed through the Choi route (theorem C02_process_matrix_is_choi)
+    if d <= 3:       # ... cross-checked against the executed definition Tr[(E_a^dag (x) E_b^T) HS_cb] where that is cheap
+        K.eq("model-variants", m_cmat(M(ctx).call("c02.process_matrix", [d, 1], c.bf + cflat(H)), D, D), mod, "model: process matrix, definition route vs Choi route", tol=0.0)
     impl = G.to_process_matrix_from_hs(cs, Hin.copy())
     K.eq("gate.to_process_matrix_from_hs", impl, mod, "process matrix")
     if g is not None:
@@ -753,13 +785,14 @@ def sub_gate_basis(ctx):
     for n in active_configs(ctx):
         c = cfg(n)
         smoke = is_smoke(ctx, n)
-        k = 1 if smoke else ctx.n(5, 25)
-        units = [] if smoke else rng.sample(range(c.D * c.D), min(c.D * c.D, ctx.n(10, 60)))
+        k = 1 if smoke else nn(ctx, n, 3, 25)
+        units = [] if smoke else rng.sample(range(c.D * c.D), min(c.D * c.D, nn(ctx, n, 6, 60)))
         for u in units:
             cases.append({"cfg": n, "gen": "unit", "H": jc(unit(c.D * c.D, u, (c.D, c.D))), "X": jc(rand_cplx(rng, c.d, c.d))})
         for _ in range(k):
             cases.append({"cfg": n, "gen": "random", "H": jc(rand_real(rng, c.D, c.D)), "X": jc(rand_cplx(rng, c.d, c.d))})
-            cases.append({"cfg": n, "gen": "random", "H": jc(rand_cplx(rng, c.D, c.D)), "X": jc(rand_cplx(rng, c.d, c.d))})
+            if not smoke:
+                cases.append({"cfg": n, "gen": "random", "H": jc(rand_cplx(rng, c.D, c.D)), "X": jc(rand_cplx(rng, c.d, c.d))})
     ctx.sample("gate_basis", cases[-1])
     ctx.run_cases("gate_basis", chk_gate_basis, cases)
 
@@ -783,14 +816,14 @@ def chk_gate_kraus(ctx, case):
     spec = m_cmat(M(ctx).call("c02.chs_of_kraus", [d, n, 0], c.bf + kraus_flat(Ks)), D, D)
     route = m_cmat(M(ctx).call("c02.chs_of_kraus", [d, n, 1], c.bf + kraus_flat(Ks)), D, D)
     K.eq("model-variants", route, spec, "model: implementation route vs specification (theorem C02_kraus_impl_is_spec)", tol=0.0)
-    inband = any(band(z.imag, ATOL) or band(z.real, ATOL) for z in spec.ravel())
+    inband_ = inband(spec, ATOL)
     st, val = M(ctx).try_call("c02.hs_of_kraus_impl", [d, n], [ATOL] + c.bf + kraus_flat(Ks))
     r, hs = call(G.to_hs_from_kraus_matrices, cs, [k.copy() for k in Ks])
     ctx.count("gate_kraus", key=(c.name, case.get("gen"), tuple(np.round(np.concatenate([k.ravel() for k in Ks]), 9)) if Ks else ()),
-              nontrivial=not inband, label="kraus->hs/%s/n=%d/%s" % (case.get("gen", "?"), n, "in-band" if inband else st))
+              nontrivial=not inband_, label="kraus->hs/%s/n=%d/%s" % (case.get("gen", "?"), n, "in-band" if inband_ else st))
     if n == 0:
         return
-    if inband:
+    if inband_:
         return
     if st == "err":
         if not (r == "err" and hs == "ValueError"):
@@ -854,7 +887,7 @@ def sub_gate_kraus(ctx):
         if not c.hermitian and c.name != "1q-comp":
             continue
         d = c.d
-        k = 1 if is_smoke(ctx, n) else ctx.n(8, 40)
+        k = 1 if is_smoke(ctx, n) else nn(ctx, n, 8, 40)
         for t in range(k):
             nk = rng.choice([1, 1, 2, 3, d * d])
             Ks = [rand_cplx(rng, d, d) / 4 for _ in range(nk)]
@@ -869,7 +902,7 @@ def sub_gate_kraus(ctx):
                 Ks = [A, 2 * A, rand_cplx(rng, d, d) / 4]; gen = "dependent"
             cases.append({"cfg": n, "gen": gen, "Ks": [jc(x) for x in Ks], "X": jc(rand_cplx(rng, d, d))})
         if not is_smoke(ctx, n) and c.hermitian and c.orthonormal:
-            for _ in range(ctx.n(2, 8)):
+            for _ in range(nn(ctx, n, 2, 8)):
                 noncp.append({"cfg": n, "H": rand_real(rng, c.D, c.D).tolist()})
     ctx.sample("gate_kraus", cases[0])
     ctx.run_cases("gate_kraus", chk_gate_kraus, cases)
@@ -878,28 +911,70 @@ def sub_gate_kraus(ctx):
 
 # ================================================================================================ variables <-> Choi
 def chk_gate_var(ctx, case):
+    """gate.to_choi_from_var and gate.to_var_from_choi.  The model of to_var_from_choi is the REPAIRED code (fix gate-to-var-from-choi-inverse-map):
+    to_hs_from_choi_with_sparsity (formula, truncation, ValueError branch) followed by convert_hs_to_var - theorem C02_to_var_from_choi_round_trip."""
     from quara.objects import gate as G
     c = cfg(case["cfg"])
     K = Cmp(ctx, "gate_var", case)
     d, D, cs = c.d, c.D, c.c_sys
     para = bool(case["para"])
+    site = "gate.to_var_from_choi"
+
+    def fixed(ch):
+        st, v = M(ctx).try_call("c02.var_of_choi_fixed", [d, int(para)], [ATOL] + c.bf + cflat(ch))
+        return st, (np.array([float(x) for x in v]) if st == "ok" else v)
+
+    def old_behaviour(ch, back):
+        """does the value look like the code before the fix (forward map applied to the Choi matrix)? only used in the message"""
+        try:
+            mold = np.array(to_c(M(ctx).call("c02.var_of_choi_before_fix", [d, int(para)], c.bf + cflat(ch))), dtype=complex)
+            b = np.asarray(back, dtype=complex).ravel()
+            return b.shape == mold.shape and np.abs(b - mold).max() <= 1e-9 * (1 + np.abs(mold).max())
+        except Exception:       # noqa
+            return False
+
+    if case.get("kind") == "choi":         # arbitrary Choi matrices (not produced from variables): value / error branch
+        Ch = uj(case["Ch"])
+        exact = m_chs(ctx, c, Ch, 0)
+        inband_ = inband(exact, ATOL)
+        ms, mv = fixed(Ch)
+        r, back = call(G.to_var_from_choi, cs, Ch.copy(), para)
+        ctx.count("gate_var", key=(c.name, para, "choi", tuple(np.round(Ch.ravel(), 9))), nontrivial=not inband_,
+                  label="choi->var/%s/%s" % (case.get("gen", "?"), "in-band" if inband_ else ms))
+        if inband_:
+            return
+        if ms == "err":
+            if not (r == "err" and back == "ValueError"):
+                K.bad(site, "error-kind", "model (Choi -> HS has imaginary part %.3g): ValueError, implementation %s%s" % (
+                    np.abs(exact.imag).max(), (r, back if r == "err" else "value"), " = the forward map applied to the Choi matrix (code before the fix)" if r == "ok" and old_behaviour(Ch, back) else ""))
+        elif r == "err":
+            K.bad(site, "unexpected-raise", "raised %s on a Hermitian Choi matrix, model returns the variables" % back)
+        else:
+            K.eq(site, back, mv, "to_var_from_choi(Choi) vs model (Choi -> HS -> var)%s" % (" [value = forward map applied to the Choi matrix, the code before the fix]" if old_behaviour(Ch, back) else ""), sig="model-mismatch")
+        return
+
     var = np.array(case["var"], dtype=float)
     ctx.count("gate_var", key=(c.name, para, tuple(var)), label="para=%s/%s" % (para, case.get("gen", "?")))
     mch = m_cmat(M(ctx).call("c02.choi_of_var", [d, int(para)], c.bf + [float(x) for x in var]), D, D)
     ch = G.to_choi_from_var(cs, var.copy(), para)
-    K.eq("gate.to_choi_from_var", ch, mch, "to_choi_from_var")
-    # faithful model of what to_var_from_choi does (forward map applied to the Choi matrix) ...
-    mimpl = np.array(to_c(M(ctx).call("c02.var_of_choi_impl", [d, int(para)], c.bf + cflat(ch))), dtype=complex)
+    if not K.eq("gate.to_choi_from_var", ch, mch, "to_choi_from_var"):
+        return
+    ms, mv = fixed(np.asarray(ch))
+    if c.orthonormal:
+        if ms != "ok":
+            K.bad("model-variants", "value", "model: repaired to_var_from_choi raises on the Choi matrix of a variable vector (contradicts theorem C02_to_var_from_choi_round_trip)")
+            return
+        K.eq("model-variants", mv, var, "model: repaired to_var_from_choi recovers the variables (theorem C02_to_var_from_choi_round_trip)", tol=1e-11)
     r, back = call(G.to_var_from_choi, cs, np.asarray(ch).copy(), para)
     if r == "err":
-        K.bad("gate.to_var_from_choi", "unexpected-raise", "raised %s" % back)
+        K.bad(site, "unexpected-raise", "raised %s on the Choi matrix of a variable vector" % back)
         return
-    K.eq("gate.to_var_from_choi", back, mimpl, "to_var_from_choi vs faithful model", sig="model-mismatch")
-    # ... and what the property (and its docstring) require: the inverse of to_choi_from_var
-    if c.orthonormal:
-        mspec = np.array([float(x) for x in M(ctx).call("c02.var_of_choi_spec", [d, int(para)], c.bf + cflat(ch))])
-        K.eq("model-variants", mspec, var, "model: specified inverse recovers the variables (theorem C02_to_var_from_choi_spec_round_trip)", tol=1e-11)
-        K.eq("gate.to_var_from_choi", back, var, "round trip var -> Choi -> var", tol=1e-10, sig="round-trip")
+    note = " [value = forward map HS->Choi applied to the Choi matrix, i.e. the code before fix gate-to-var-from-choi-inverse-map]" if old_behaviour(np.asarray(ch), back) else ""
+    if c.orthonormal:      # what the property requires: the inverse of to_choi_from_var
+        if not K.eq(site, back, var, "round trip var -> Choi -> var" + note, tol=1e-10, sig="round-trip"):
+            return
+    if ms == "ok":
+        K.eq(site, back, mv, "to_var_from_choi vs model (Choi -> HS -> var)" + note, sig="model-mismatch")
 
 
 def hadamard_var(c, para):
@@ -924,12 +999,16 @@ def sub_gate_var(ctx):
             hv = hadamard_var(c, para)
             if hv is not None:       # the witness of theorem C02_to_var_from_choi_refuted (H resp. H (x) I), replayed on the real code
                 cases.append({"cfg": n, "gen": "hadamard", "para": para, "var": [float(x) for x in hv]})
-            k = 1 if is_smoke(ctx, n) else ctx.n(3, 12)
+            k = 1 if is_smoke(ctx, n) else nn(ctx, n, 3, 12)
             for _ in range(k):
                 cases.append({"cfg": n, "gen": "random", "para": para, "var": rand_real(rng, ln).tolist()})
             if not is_smoke(ctx, n):
-                for u in rng.sample(range(ln), min(ln, ctx.n(4, 16))):
+                for u in rng.sample(range(ln), min(ln, nn(ctx, n, 4, 16))):
                     cases.append({"cfg": n, "gen": "unit", "para": para, "var": unit(ln, u).tolist()})
+                for t in range(nn(ctx, n, 2, 6)):       # Choi matrices that do not come from variables: Hermitian (value) / complex (ValueError)
+                    herm = t % 2 == 0
+                    cases.append({"cfg": n, "kind": "choi", "gen": "hermitian" if herm else "complex", "para": para,
+                                  "Ch": jc(rand_herm(rng, c.D) if herm else rand_cplx(rng, c.D, c.D))})
     ctx.sample("gate_var", cases[0])
     ctx.run_cases("gate_var", chk_gate_var, cases)
 
@@ -946,8 +1025,13 @@ def chk_mprocess(ctx, case):
     mp = MP.MProcess(cs, [h.copy() for h in hss], shape=shape, is_physicality_required=False)
     ctx.count("mprocess", key=(c.name, shape, tuple(np.concatenate([h.ravel() for h in hss]))), label="shape=%s" % (shape,))
     multi = list(itertools.product(*[range(s) for s in shape]))
+    light = bool(case.get("light"))      # quick-tier smoke configuration (d = 6): layout of every outcome, the conversions of the LAST outcome only
     for serial, idx in enumerate(multi):
         H = hss[serial]
+        if light and serial != len(multi) - 1:
+            for key in (serial, tuple(idx)):
+                K.eq("MProcess.hs", mp.hs(key), H, "hs(%s)" % (key,), tol=0.0, sig="layout")
+            continue
         mch = m_choi(ctx, c, H)
         for key in (serial, tuple(idx)):
             K.eq("MProcess.hs", mp.hs(key), H, "hs(%s)" % (key,), tol=0.0, sig="layout")
@@ -965,10 +1049,10 @@ def chk_mprocess(ctx, case):
             elif len(ks) > 0:
                 back = m_cmat(M(ctx).call("c02.chs_of_kraus", [d, len(ks), 0], c.bf + kraus_flat(ks)), D, D)
                 K.eq("MProcess.to_kraus_matrices", back, H, "certificate HS(Kraus(outcome %s)) vs HS" % (idx,), tol=1e-8, sig="kraus-certificate")
-    for tname, tb in other_bases(c)[:3]:
+    for tname, tb in other_bases(c)[:(1 if light else 3)]:
         Bt = np.array([dense(b) for b in tb])
         impl = mp.convert_basis(tb)
-        for serial in range(len(hss)):
+        for serial in (range(len(hss)) if not light else [len(hss) - 1]):
             mod = m_convert_hs(ctx, c, Bt, hss[serial])
             K.eq("MProcess.convert_basis", impl[serial], mod, "convert_basis -> %s (%d)" % (tname, serial))
             if tname == "comp-row":
@@ -987,7 +1071,7 @@ def sub_mprocess(ctx):
         c = cfg(n)
         if not CONFIGS[n][2]:
             continue          # MProcess requires an orthonormal Hermitian basis with B_0 ~ I (constructor raises otherwise)
-        k = 1 if is_smoke(ctx, n) else ctx.n(3, 12)
+        k = 1 if is_smoke(ctx, n) else nn(ctx, n, 2 if c.D >= 16 else 3, 12)
         for t in range(k):
             shape = rng.choice([(1,), (2,), (3,), (2, 2), (2, 3), (3, 2)]) if c.D <= 16 else rng.choice([(2,), (1, 2)])
             m = int(np.prod(shape))
@@ -1000,7 +1084,7 @@ def sub_mprocess(ctx):
                     cb = sum(np.kron(kk, kk.conj()) for kk in Ks)
                     U = np.array([[np.vdot(c.B[a], unit(c.D, r, (c.d, c.d))) for r in range(c.D)] for a in range(c.D)])
                     hss.append(np.ascontiguousarray((U @ cb @ U.conj().T).real))
-            cases.append({"cfg": n, "shape": list(shape), "hss": [h.tolist() for h in hss]})
+            cases.append({"cfg": n, "shape": list(shape), "hss": [h.tolist() for h in hss], "light": is_smoke(ctx, n)})
     ctx.sample("mprocess", cases[0])
     ctx.run_cases("mprocess", chk_mprocess, cases)
 
@@ -1012,13 +1096,13 @@ def chk_truncate(ctx, case):
     A = uj(case["A"])
     eps = case.get("eps")
     e = ATOL if eps is None else eps
-    inband = any(band(z.imag, e) or band(z.real, e) for z in A.ravel())
+    inband_ = inband(A, e)
     m, n = A.shape
     st, val = M(ctx).try_call("c02.truncate", [m, n], [float(e)] + cflat(A))
     arg = A.copy() if case.get("complex", True) else A.real.copy()
     r, iv = call(mu.truncate_hs, arg, eps)
-    ctx.count("truncate", key=(tuple(np.round(A.ravel(), 18)), eps), nontrivial=not inband, label=("in-band" if inband else st) + "/" + case.get("gen", "?"))
-    if inband:
+    ctx.count("truncate", key=(tuple(np.round(A.ravel(), 18)), eps), nontrivial=not inband_, label=("in-band" if inband_ else st) + "/" + case.get("gen", "?"))
+    if inband_:
         return
     if st == "err":
         if not (r == "err" and iv == "ValueError"):
@@ -1039,16 +1123,20 @@ def sub_truncate(ctx):
         eps = rng.choice([None, 1e-13, 1e-6, 1e-3, 0.0])
         e = ATOL if eps is None else eps
         A = rand_cplx(rng, m, n)
-        kind = rng.choice(["real", "tiny-im", "big-im", "tiny-re", "mixed"])
+        kind = rng.choice(["real", "tiny-im", "big-im", "tiny-re", "mixed", "large-re"])
         if kind == "real":
             A = A.real + 0j
         elif kind == "tiny-im":
             A = A.real + 1j * np.array([rng.choice([0, 0.01, -0.05]) * e for _ in range(m * n)]).reshape(m, n)
         elif kind == "big-im":
             A = A.real + 0j
-            A[rng.randrange(m), rng.randrange(n)] += 1j * rng.choice([20 * e if e > 0 else 0.5, 0.25, -1.0])
+            A[rng.randrange(m), rng.randrange(n)] += 1j * rng.choice([200 * e if e > 0 else 0.5, 0.25, -1.0])
         elif kind == "tiny-re":
             A = np.array([rng.choice([0, 0.02, -0.1, 50, -300]) * (e if e > 0 else 1e-9) for _ in range(m * n)]).reshape(m, n) + 0j
+        elif kind == "large-re":     # real parts up to 128: imaginary parts far below / far above both the absolute and the relative threshold
+            A = 64 * A.real + 1j * np.array([rng.choice([0, 0.01, -0.05]) * e for _ in range(m * n)]).reshape(m, n)
+            if rng.random() < 0.5:
+                A[rng.randrange(m), rng.randrange(n)] += 1j * (1e5 * e if e > 0 else 0.5)
         cases.append({"A": jc(A), "eps": eps, "gen": kind, "complex": not (kind in ("real", "tiny-re") and rng.random() < 0.5)})
     ctx.sample("truncate", cases[0])
     ctx.run_cases("truncate", chk_truncate, cases)
@@ -1092,7 +1180,7 @@ def sub_linearity(ctx):
     cases = []
     for n in active_configs(ctx):
         c = cfg(n)
-        for _ in range(1 if is_smoke(ctx, n) else ctx.n(4, 20)):
+        for _ in range(1 if is_smoke(ctx, n) else nn(ctx, n, 4, 20)):
             cases.append({"cfg": n, "al": dy(rng, 4), "be": dy(rng, 4), "cal": [dy(rng, 4), dy(rng, 4)], "cbe": [dy(rng, 4), dy(rng, 4)],
                           "v": rand_real(rng, c.D).tolist(), "w": rand_real(rng, c.D).tolist(),
                           "H1": jc(rand_cplx(rng, c.D, c.D)), "H2": jc(rand_cplx(rng, c.D, c.D)),
@@ -1109,16 +1197,60 @@ FNS = {"basis": chk_basis, "tables": chk_tables, "state": chk_state, "povm": chk
        "truncate": chk_truncate, "linearity": chk_linearity}
 
 
+def _timed(name, fn):
+    def g(ctx):
+        import time
+        t = time.time()
+        fn(ctx)
+        ctx.note("wall %s: %.1f s" % (name, time.time() - t))
+    return g
+
+
+def _run(ctx, subchecks):
+    """flow.standard_run with the recompilation of Props/C02.v (a coqc subprocess; runner.check_props only writes ctx.theorems / obligations /
+    discharged / axioms, which no sub-check touches) running in a thread WHILE the correspondences run; the outcome is handled exactly as in
+    flow.standard_run: a theorem that no longer checks is a violation (no-failing-input-found unless a sub-check found the failing input)."""
+    import threading
+    import runner
+    box = {}
+
+    def props():
+        try:
+            box["res"] = runner.check_props(ctx)
+        except Exception as e:      # noqa
+            box["res"] = (False, {"theorem": None, "error": "check_props failed: %r" % (e,)})
+    th = threading.Thread(target=props)
+    t0 = __import__("time").time()
+    th.start()
+    try:
+        for name, fn in subchecks:
+            if ctx.only is None or name in ctx.only:
+                fn(ctx)
+    finally:
+        th.join()
+    ctx.note("wall theorems (concurrent with the sub-checks): finished after %.1f s" % (__import__("time").time() - t0))
+    ok, info = box["res"]
+    if not ok:
+        ctx.discharged = min(ctx.discharged, ctx.obligations - 1)
+    if not ok and not ctx.violations:
+        ctx.violation("theorems", "Props/%s.v" % ctx.prop_id, "theorem-broken:%s" % info.get("theorem"),
+                      "theorem %s no longer checks: %s" % (info.get("theorem"), info.get("error", "")[-400:]),
+                      {"theorem": info.get("theorem"), "error": info.get("error")}, no_input=True)
+    elif not ok:
+        ctx.note("theorem obligations not discharged: %s" % info)
+
+
 def run(ctx):
     ctx.rule = ("per configuration (1 qubit, qutrit, 2 qubits [+ qubit x qutrit smoke; thorough: qutrit x qubit, ququart, generalised Gell-Mann] x normalised "
                 "Pauli / Gell-Mann / generalised Gell-Mann bases, plus computational and unnormalised Pauli bases for the model correspondence only): "
                 "every unit vector / matrix unit of the input space of each conversion (complete basis) and seeded random dyadic complex, "
-                "asymmetric, non-physical inputs; thresholds of truncate_hs probed at 0.01*eps and 30*eps; inputs whose exact value lies within "
-                "a factor 8 of a threshold are counted as trivial (in-band) and no decision is compared; distinct = distinct (configuration, input)")
+                "asymmetric, non-physical inputs (d = 4: seeded sample of the matrix units, d = 6: thin); thresholds of truncate_hs probed at 0.01*eps and 1000*eps; "
+                "inputs with an entry within a factor 8 of a threshold (imaginary parts: of eps .. eps*max(1,max|re|), covering the code before and after fix "
+                "truncate-hs-relative-imag-threshold) are counted as trivial (in-band) and no decision is compared; distinct = distinct (configuration, input)")
     ctx.assumptions = ["bases are read from the implementation (c_sys.basis()) and sent to the model as exact dyadic rationals; their orthonormality / "
                        "completeness / Hermiticity is checked numerically (1e-12) per configuration and exactly (Coq, rounded entries) for the 2-qubit Pauli basis",
                        "eigh inside to_kraus_matrices_from_hs is an oracle: its output is checked by the certificate sum_K <B_a, K B_b K^dag> = HS (1e-8)"]
-    flow.standard_run(ctx, SUBS)
+    _run(ctx, [(name, _timed(name, fn)) for name, fn in SUBS])
 
 
 def replay(ctx, doc):
